@@ -161,3 +161,9 @@ package phase4
 //@   requires[|C01] forall k int :: 0 <= k && k < len(layers) ==> layers[k] != nil
 //@ func xcoordinates.Size
 //@   requires[|C01] !has(xc, nil)
+
+// balanceLayouts (C01): the index of the narrowest layout stays within the four layouts
+//@ func balanceLayouts
+//@   requires[|C01] forall k int :: 0 <= k && k < 4 ==> layoutXCoords[k] != nil && !has(layoutXCoords[k], nil)
+//@   loop range(layoutXCoords)#1 index a
+//@     invariant[|C01] 0 <= leastWidth && leastWidth < 4
